@@ -570,3 +570,22 @@ _DISPATCH = {"tables": _check_tables, "psk_offset": _check_psk_offset,
 
 def check(case, ctx):
     _DISPATCH[case["part"]](case, ctx)
+
+
+# ----------------------------------------------------------------------------
+# every direct library call made by this check must leave the arrays handed
+# to it unchanged (core.GuardedCalls)
+# ----------------------------------------------------------------------------
+def _guard_targets():
+    from pyphysim.util import conversion, misc
+    return [(conversion, "binary2gray"), (conversion, "gray2binary"),
+            (misc, "count_bit_errors"), (misc, "count_bits")]
+
+
+_unguarded_check = check
+
+
+def check(case, ctx):  # noqa: F811
+    from ..core import GuardedCalls
+    with GuardedCalls(_guard_targets(), dict(part=case.get("part"))):
+        return _unguarded_check(case, ctx)
